@@ -15,6 +15,8 @@ def f32(x):
     return struct.unpack("f", struct.pack("f", x))[0]
 
 LABELS_SMALL = ["a", "b", "c"]
+# legal but unusual labels: the empty string and other falsy-looking / None-looking strings (a category is "given" iff it is not None)
+LABELS_ODD = ["", "0", " ", "None", "a"]
 LABELS_WORDS = ["Noun", "Verb", "Adj", "Adv", "Det", "N", "Nouns", "verb"]
 LABELS_NUM = ["1", "2", "3", "5", "10", "12", "20", "100"]
 # names that are prefixes / suffixes / repetitions of each other (string algorithms, substring tests)
